@@ -227,6 +227,8 @@ func instrument(fset *token.FileSet, f *ast.File, fname string, globals map[stri
 						*e = ast.NewIdent("VerifRWMutex")
 					case "Once":
 						*e = ast.NewIdent("VerifOnce")
+					case "Pool":
+						*e = ast.NewIdent("VerifPool")
 					}
 				}
 			}
@@ -433,6 +435,63 @@ func (m *VerifRWMutex) RUnlock() {
 	verifPoint("runlock")
 }
 
+// VerifPool replaces sync.Pool. The real pool hands out recycled or fresh objects depending on
+// the garbage collector and the processor it runs on, which would make the number of scheduling
+// points of an execution vary from run to run. Under the scheduler it is a deterministic LIFO
+// that the harness empties before every execution (VerifResetPools); objects are still reused
+// within an execution, so a pool that hands out dirty objects is still visible.
+type VerifPool struct {
+	New        func() interface{}
+	items      []interface{}
+	registered bool
+	real       sync.Pool
+}
+
+var verifPools []*VerifPool
+
+func (p *VerifPool) Get() interface{} {
+	if VerifBlockHook == nil {
+		if p.real.New == nil && p.New != nil {
+			p.real.New = p.New
+		}
+		return p.real.Get()
+	}
+	verifPoint("pool.get")
+	if !p.registered {
+		p.registered = true
+		verifPools = append(verifPools, p)
+	}
+	if n := len(p.items); n > 0 {
+		x := p.items[n-1]
+		p.items = p.items[:n-1]
+		return x
+	}
+	if p.New != nil {
+		return p.New()
+	}
+	return nil
+}
+
+func (p *VerifPool) Put(x interface{}) {
+	if VerifBlockHook == nil {
+		p.real.Put(x)
+		return
+	}
+	verifPoint("pool.put")
+	if !p.registered {
+		p.registered = true
+		verifPools = append(verifPools, p)
+	}
+	p.items = append(p.items, x)
+}
+
+// VerifResetPools empties every pool seen so far (called before each controlled execution).
+func VerifResetPools() {
+	for _, p := range verifPools {
+		p.items = nil
+	}
+}
+
 // VerifOnce replaces sync.Once.
 type VerifOnce struct {
 	done    bool
@@ -505,7 +564,7 @@ func VerifGlobals() string {
 	var b strings.Builder
 `)
 	for _, g := range globals {
-		if g == "VerifStepHook" || g == "VerifYieldHook" || g == "VerifBlockHook" {
+		if g == "VerifStepHook" || g == "VerifYieldHook" || g == "VerifBlockHook" || g == "verifPools" {
 			continue
 		}
 		fmt.Fprintf(&b, "\tverifDump(&b, %q, &%s)\n", g, g)
